@@ -257,21 +257,6 @@ func compareLetters(a, b string) int {
 
 // compareSuffixArrays compares suffix arrays
 func compareSuffixArrays(a, b []suffix) int {
-	if len(a) == 0 && len(b) == 0 {
-		return 0
-	}
-
-	// Handle cases where one side has no suffixes (release version)
-	// Compare against empty suffix (weight 4)
-	if len(a) == 0 {
-		// Compare release vs first suffix of b
-		return compareSuffixes(suffix{name: "", number: 0}, b[0])
-	}
-	if len(b) == 0 {
-		// Compare first suffix of a vs release
-		return compareSuffixes(a[0], suffix{name: "", number: 0})
-	}
-
 	// Compare suffix by suffix up to the minimum length
 	minLen := min(len(a), len(b))
 
@@ -282,9 +267,16 @@ func compareSuffixArrays(a, b []suffix) int {
 		}
 	}
 
-	// If all compared suffixes are equal, the longer array is "smaller"
-	// This means "alpha_pre" < "alpha" (more suffixes = less stable)
-	return compareInt(len(b), len(a))
+	// If all compared suffixes are equal, the first extra suffix decides against "no suffix"
+	// (release, weight 4): an additional pre-release suffix is older ("alpha_pre" < "alpha",
+	// "_rc1" < release), an additional post-release suffix newer ("_p1" > release)
+	if len(a) > minLen {
+		return compareSuffixes(a[minLen], suffix{name: "", number: 0})
+	}
+	if len(b) > minLen {
+		return compareSuffixes(suffix{name: "", number: 0}, b[minLen])
+	}
+	return 0
 }
 
 // compareSuffixes compares two individual suffixes
